@@ -2,6 +2,7 @@
 package c02
 
 import (
+	"sync"
 	"context"
 	"errors"
 	"fmt"
@@ -52,6 +53,27 @@ type c02Case struct {
 type delivered struct {
 	pkgs []tds.Package
 	errs []string
+	// hooks: what the message and environment hooks of the channel were told, in order
+	hooks []string
+}
+
+// watch registers one message hook and one environment hook that record their calls.
+func watch(ch *tds.Channel, d *delivered) {
+	var mu sync.Mutex
+	if err := ch.RegisterEEDHooks(func(e tds.EEDPackage) {
+		mu.Lock()
+		d.hooks = append(d.hooks, fmt.Sprintf("eed %d %q", e.MsgNumber, e.Msg))
+		mu.Unlock()
+	}); err != nil {
+		vh.HarnessBug("RegisterEEDHooks: %v", err)
+	}
+	if err := ch.RegisterEnvChangeHooks(func(t tds.EnvChangeType, o, n string) {
+		mu.Lock()
+		d.hooks = append(d.hooks, fmt.Sprintf("env %d %q->%q", t, o, n))
+		mu.Unlock()
+	}); err != nil {
+		vh.HarnessBug("RegisterEnvChangeHooks: %v", err)
+	}
 }
 
 func drain(ctx context.Context, conn *tds.Conn, ch *tds.Channel, d *delivered) {
@@ -87,6 +109,7 @@ func runPackets(packets []rc.Packet, sendAt ...int) (d delivered, f *vh.Failure)
 	if err != nil {
 		vh.HarnessBug("NewChannel: %v", err)
 	}
+	watch(ch, &d)
 	for i, p := range packets {
 		if len(sendAt) > 0 && sendAt[0] > 0 && (i == sendAt[0] || (i == len(packets)-1 && sendAt[0] >= len(packets))) {
 			if err := ch.SendPackage(ctx, &tds.LanguagePackage{Cmd: "select 1"}); err != nil {
@@ -125,6 +148,7 @@ func runBytes(stream []byte, reads []int, eofWithData bool, logPkgs ...bool) (d 
 	if err != nil {
 		vh.HarnessBug("NewChannel: %v", err)
 	}
+	watch(ch, &d)
 	if eofWithData {
 		pipe.EOFWithLastBytes(len(stream))
 	}
@@ -277,6 +301,11 @@ func runCase(c c02Case) (f *vh.Failure) {
 		if !reflect.DeepEqual(A.pkgs[i], B.pkgs[i]) && pkggen.LibEqual(model[i], fmts[i], B.pkgs[i]) != nil {
 			return vh.Failf(cls+"-delivery-differs", "response [%s] %s: package %d differs: %v vs unfragmented %v", respgen.Describe(c.Pkgs), how, i, B.pkgs[i], A.pkgs[i])
 		}
+	}
+	// the hooks were told the same, in the same order (every message and every environment
+	// change member once, however often its package had to be parsed)
+	if fmt.Sprint(A.hooks) != fmt.Sprint(B.hooks) {
+		return vh.Failf(cls+"-hooks-differ", "response [%s] (%d bytes) %s: the hooks were told %v, unfragmented %v", respgen.Describe(c.Pkgs), len(stream), how, B.hooks, A.hooks)
 	}
 	// classification
 	nt := splitsHeader
